@@ -109,6 +109,7 @@ type ClientOp struct {
 	Resp     raft.OperationResponse
 	Conf     raft.Configuration
 	Gone     bool // client gave up (timeout) before resolution
+	SendClock int // network send clock when the operation was invoked
 }
 
 type ArmSpec struct {
@@ -408,6 +409,9 @@ func (c *Cluster) Apply(e Event) error {
 		m.State = MDone
 		m.Replied = true
 		c.Net.remove(m)
+		if c.Net.OnReply != nil {
+			c.Net.OnReply(m)
+		}
 	case "rt": // deliver and reply in one step
 		m := c.Net.find(e.M)
 		if m == nil || m.State != MSent {
@@ -426,6 +430,9 @@ func (c *Cluster) Apply(e Event) error {
 			m.State = MDone
 			m.Replied = true
 			c.Net.remove(m)
+			if c.Net.OnReply != nil {
+				c.Net.OnReply(m)
+			}
 		}
 	case "drop":
 		m := c.Net.find(e.M)
@@ -479,7 +486,7 @@ func (c *Cluster) Apply(e Event) error {
 		if !n.Alive {
 			return fmt.Errorf("%s: n%d is down", e.K, e.N)
 		}
-		op := &ClientOp{ID: len(c.Ops), Kind: e.K, Node: e.N}
+		op := &ClientOp{ID: len(c.Ops), Kind: e.K, Node: e.N, SendClock: c.Net.Order()}
 		var typ raft.OperationType
 		switch e.K {
 		case "write":
@@ -849,6 +856,12 @@ func (c *Cluster) Tags() []string {
 	for _, op := range c.Ops {
 		if op.Resolved && op.Err == nil {
 			t = append(t, "op_acked")
+			break
+		}
+	}
+	for _, op := range c.Ops {
+		if op.Resolved && op.Err == nil && (op.Kind == "read" || op.Kind == "lease") {
+			t = append(t, "read_served")
 			break
 		}
 	}
